@@ -365,12 +365,16 @@ def check(pid, tier, seed, spec, known, fixed, work, only, jobs, t_start):
         for k in known: g['cxxdefs']['KF_' + re.sub(r'\W', '_', k)] = 1
     if not groups: raise SystemExit('no instances selected')
     built = []; build_errors = []
-    for g in groups:
+    def build_one(g):
         grp = Group(spec, g, work)
         try:
-            grp.build(); log('[%s] built group %s in %.1fs: %s' % (pid, g['name'], grp.build_s, grp.ll2c_msg.split('\n')[0])); built.append(grp)
+            grp.build(); log('[%s] built group %s in %.1fs: %s' % (pid, g['name'], grp.build_s, grp.ll2c_msg.split('\n')[0])); return grp, None
         except BuildError as e:
-            build_errors.append('%s: %s' % (g['name'], e)); log('[%s] BUILD ERROR %s' % (pid, e))
+            log('[%s] BUILD ERROR %s' % (pid, e)); return None, '%s: %s' % (g['name'], e)
+    with concurrent.futures.ThreadPoolExecutor(4) as ex:
+        for grp, err in ex.map(build_one, groups):
+            if grp is not None: built.append(grp)
+            else: build_errors.append(err)
     tasks = [(grp, i) for grp in built for i in grp.g['instances']]
     results = []
     # memory-aware scheduling: total budget 48 GB, at most `jobs` concurrent
